@@ -147,6 +147,14 @@ func (c *Ctx) Violation(key, what string, replay any) {
 	}
 }
 
+// HasKey reports whether a violation with exactly this key was recorded.
+func (c *Ctx) HasKey(key string) bool {
+	c.mu.Lock()
+	defer c.mu.Unlock()
+	_, ok := c.viol[key]
+	return ok
+}
+
 func (c *Ctx) NumViolations() int { c.mu.Lock(); defer c.mu.Unlock(); return len(c.viol) }
 
 // Finish writes the evidence file, prints the result lines and returns the exit code.
